@@ -102,7 +102,7 @@ var vLong520 = strings.Repeat("a", 520)
 var vLong600 = strings.Repeat("é", 300)
 
 // vTexts are the trailing-text values of C15's alphabet.
-var vTexts = []string{"hi", "", ":x", "a b", "x\ry", "x\x00y", "x\rQUIT :injected", vLong600, vLong520, "ünï"}
+var vTexts = []string{"hi", "", ":x", "a b", "x\ry", "x\x00y", "x\rQUIT :injected", vLong600, vLong520, "ünï", "x\ny", "x\n:b!ub@robust/0x5 PRIVMSG #c :forged"}
 
 func vClientLines(now int64, full bool) []VLine {
 	var ls []VLine
@@ -113,7 +113,8 @@ func vClientLines(now int64, full bool) []VLine {
 	}
 	tok := func(purpose string) string { return vCaptcha(vSecret, purpose, "authXXXX", false) }
 	okJoin := fmt.Sprintf("okay:join:%d:#c", now)
-	add("nick", "NICK a", "NICK A", "NICK b", "NICK c", "NICK [x", "NICK {x", "NICK ]x", "NICK x", "NICK ChanServ", "NICK fooserv", "NICK 1bad", "NICK", "NICK :", "NICK held", "NICK "+strings.Repeat("n", 31), "NICK "+strings.Repeat("n", 32), "NICK a b c")
+	add("nick", "NICK a", "NICK A", "NICK b", "NICK c", "NICK [x", "NICK {x", "NICK ]x", "NICK x", "NICK ChanServ", "NICK fooserv", "NICK 1bad", "NICK", "NICK :", "NICK held", "NICK "+strings.Repeat("n", 31), "NICK "+strings.Repeat("n", 32), "NICK a b c",
+		"NICK p\\q", "NICK p|q", "NICK P\\Q", "NICK ^x", "NICK ~x", "NICK x`y", "NICK x_y", "NICK x-y")
 	add("user", "USER u 0 * :Real", "USER u 0 *", "USER u 0 * :", "USER", "USER u", "USER x\x00y 0 * :r\ry", "USER "+vLong520+" 0 * :"+vLong600)
 	add("pass", "PASS pw", "PASS :nickserv=x", "PASS :services=svcpw", "PASS :services=wrong", "PASS :oper=root operpw", "PASS :oper=root wrong", "PASS :oper=root", "PASS", "PASS :", "PASS :session=x:oper=root operpw",
 		"PASS :captcha="+tok(fmt.Sprintf("okay:login:%d:", now)), "PASS :captcha="+tok(fmt.Sprintf("login:%d:", now)), "PASS :captcha="+vCaptcha(vSecret, fmt.Sprintf("okay:login:%d:", now), "authXXXX", true),
@@ -144,7 +145,8 @@ func vClientLines(now int64, full bool) []VLine {
 		"AWAY", "AWAY :gone", "AWAY :", "AWAY :  ", "AWAY gone fishing")
 	add("quit", "QUIT", "QUIT :bye", "QUIT :", "QUIT a b")
 	add("server", "SERVER services.robustirc.net 1 :Services", "SERVER s", "SERVER", "SERVER a b", "SERVER : :")
-	add("garbage", ":", ": ", " ", "", ":p", ":prefix", ":prefix ", "join #c", ":a!ua@robust/0x1 PRIVMSG #c :spoof", ":b PRIVMSG #c :spoof", ":b NICK z", "\x01", "123", "001 a :x", "PANIC", "FOO", "FOO a b c", "é", "PRIVMSG\t#c :x", "SJOIN 1 #c :a", "SVSNICK a z 1", "SVSJOIN a #c", ":ChanServ KILL a :x", "ERROR :x", "CAP LS", "NICK\x00a")
+	add("garbage", ":", ": ", " ", "", ":p", ":prefix", ":prefix ", "join #c", ":a!ua@robust/0x1 PRIVMSG #c :spoof", ":b PRIVMSG #c :spoof", ":b NICK z", "\x01", "123", "001 a :x", "PANIC", "FOO", "FOO a b c", "é", "PRIVMSG\t#c :x", "SJOIN 1 #c :a", "SVSNICK a z 1", "SVSJOIN a #c", ":ChanServ KILL a :x", "ERROR :x", "CAP LS", "NICK\x00a",
+		"\nPRIVMSG #c :hi\n:b!ub@robust/0x5 PRIVMSG #c :forged", "\r\nQUIT :x", "\n", "\r", "\x00", "\nNICK z", "PRIVMSG #c :a\nb\rc\x00d")
 	for _, t := range vTexts {
 		add("text", "PRIVMSG #c :"+t, "PRIVMSG b :"+t, "TOPIC #c :"+t, "KICK #c b :"+t, "PART #c :"+t, "QUIT :"+t, "AWAY :"+t, "KNOCK #c :"+t, "USER u 0 * :"+t, "MODE #c +k "+t, "MODE #c +b "+t, "NS "+t, "FOO"+t+" x", "JOIN #c "+t, "JOIN #n"+t, "NICK n"+t, "PING :"+t, "INVITE b #c"+t, "WHOIS "+t, "OPER "+t+" "+t, "PASS :"+t)
 	}
